@@ -6,8 +6,8 @@ from . import c08
 EXPLANATION = ("Panic-site census over everything reachable from the public parse_* functions of curve25519-parser with their `data` parameter as the taint "
                "source: every MIR Assert and panicking API call (index, slice range, copy_from_slice, unwrap/expect) must be discharged by a dominating "
                "length fact (data.len() != 34 -> return), a fixed-size type (GenericArray<u8, U64>) or equal constant lengths, or be listed as reviewed. "
-               "Removing or weakening the length test re-opens the sites. Round-trip of generated keys and Edwards->Montgomery conversion are numeric / "
-               "runtime facts and not decided.")
+               "Removing or weakening the length test re-opens the sites. (R18.2) parse_openssl_25519_pubkeys_pem_many pushes the key of every PEM block, once, in "
+               "iteration order, and never removes or reorders. Round-trip of generated keys and Edwards->Montgomery conversion are numeric / runtime facts and not decided.")
 TRUSTED = ['rustc MIR', 'der-parser, nom, pem, curve25519-dalek, sha2 do not panic on arbitrary bytes (dependencies are not analysed)']
 ASSUMPTIONS = ['overflow checks on']
 
@@ -19,6 +19,64 @@ def run(prog, rep, tier):
     via_table = [k for k in seen if k in table]
     rep.ob('PANIC18', not via_table, 'PANIC18|curve25519-parser|all-sites-discharged-structurally', 'all %d sites discharged by length facts / fixed sizes' % len(seen) if not via_table else
            'parser sites rely on table entries: %s' % via_table, '-')
+
+    r18_2(prog, rep)
+
+
+VEC_REORDER = {'remove', 'swap_remove', 'retain', 'retain_mut', 'dedup', 'dedup_by', 'dedup_by_key', 'sort', 'sort_by', 'sort_by_key', 'sort_unstable',
+               'sort_unstable_by', 'sort_unstable_by_key', 'reverse', 'truncate', 'clear', 'insert', 'pop', 'drain', 'split_off', 'swap', 'rotate_left',
+               'rotate_right', 'append', 'extend', 'resize'}
+
+
+def r18_2(prog, rep):
+    """"several concatenated PEM public keys parse to the same keys in order" -- the structural part: in parse_openssl_25519_pubkeys_pem_many every
+    PEM block whose key parsed successfully contributes exactly one push of that parse result to the returned vector (no path from the successful
+    parse back to the iterator skips the push), and the vector is only ever pushed to (no removal, de-duplication or reordering)."""
+    body = one_body(prog, rep, 'R18.2', 'curve25519-parser', exact='parse_openssl_25519_pubkeys_pem_many')
+    if body is None:
+        return
+    rep.fn(body)
+    nxt = [b for b in body.calls() if b.term.cmethod == 'next' and b.term.ctrait == 'std::iter::Iterator']
+    parses = [b for b in body.calls() if cnorm(b.term).endswith('parse_openssl_25519_pubkey_der')]
+    pushes = [b for b in body.calls() if b.term.cmethod == 'push' and 'Vec' in cnorm(b.term)]
+    if len(nxt) != 1 or len(parses) != 1 or len(pushes) != 1:
+        rep.ob('R18.2', False, 'R18.2|%s|anchors' % body.nkey, 'expected one iterator step, one per-block parse and one push (found %d / %d / %d)' % (len(nxt), len(parses), len(pushes)), body.loc())
+        return
+    n, pz, pu = nxt[0], parses[0], pushes[0]
+    # pushed value = the Ok payload of the per-block parse
+    a = pu.term.args[1]
+    okv = a.place is not None and must_derive(body, a.place[0], lambda k, ob, bb: k == 'call' and bb == pz.idx, extra_transparent=('branch',))
+    rep.ob('R18.2', bool(okv), 'R18.2|%s|pushed-value-is-parsed-key' % body.nkey, 'the pushed element is the result of parse_openssl_25519_pubkey_der for this block' if okv else
+           'the element pushed is not (only) the key parsed from the current PEM block', body.loc(pu.idx))
+    # from the success of the parse, the next iterator step is not reachable without the push
+    succ = None
+    for sbb, si in arm_of_enum_switch(prog, body):
+        if si['adt'] in ('std::ops::ControlFlow', 'std::result::Result') and pz.idx in origins(body, [si['place'][0]], through_calls=True).calls and body.dominates(pz.idx, sbb):
+            t = enum_arm_target(si, 'Continue') if si['adt'] == 'std::ops::ControlFlow' else enum_arm_target(si, 'Ok')
+            if t is not None:
+                succ = (sbb, t)
+    if succ is None:
+        rep.ob('R18.2', False, 'R18.2|%s|anchor|parse-success-edge' % body.nkey, 'no branch on the result of the per-block parse found', body.loc(pz.idx))
+    else:
+        r = body.reachable(succ[1], removed_blocks=[pu.idx])
+        skip = n.idx in r or any(x in r for x in body.return_blocks())
+        rep.ob('R18.2', not skip, 'R18.2|%s|every-parsed-key-pushed' % body.nkey, 'after a successful parse the only way on is through push' if not skip else
+               'a successfully parsed key can be left out of the result (a path from the parse to the next block / the return avoids push): the keys returned are no longer '
+               'the keys of the input, one per block, in order', body.loc(pu.idx))
+    # the result vector is only pushed to
+    vo = origins(body, [pu.term.args[0].place[0]], through_calls=False).locals
+    bad = []
+    for ent_l in vo:
+        for ent in mutarg_defs(body).get(ent_l, []):
+            t = ent[1]
+            if t.cmethod in VEC_REORDER and 'Vec' in (cnorm(t) + t.cargs):
+                bad.append(t.cmethod)
+    rep.ob('R18.2', not bad, 'R18.2|%s|result-only-pushed' % body.nkey, 'the result vector is only appended to' if not bad else 'the result vector is also modified by %s' % sorted(set(bad)), body.loc())
+    # Ok(result) returns that vector
+    oks = [(bl.idx, i, st) for bl in body.blocks if not bl.cleanup for i, st in enumerate(bl.stmts)
+           if st.kind == 'assign' and st.place == (0, ()) and st.rv.r == 'aggregate' and st.rv.j.get('variant') == 'Ok']
+    okr = len(oks) == 1 and oks[0][2].rv.ops[0].place is not None and bool(origins(body, [oks[0][2].rv.ops[0].place[0]], through_calls=False).locals & vo)
+    rep.ob('R18.2', okr, 'R18.2|%s|returns-the-pushed-vector' % body.nkey, 'Ok(..) returns the vector the keys were pushed to' if okr else 'the Ok result is not the vector the keys were pushed to', body.loc())
 
 
 def thorough_extra(rep, verif, repo):
